@@ -131,6 +131,9 @@ def canon(e: ast.AST, leaf: Optional[LeafFn] = None, transparent=("float", "Frac
             for _ in range(e.right.value):
                 out = out * a
             return out
+        if isinstance(e.op, ast.FloorDiv) and "floordiv" in transparent:
+            # asked for by a rule that also looks through int(): for the non-negative integers it is applied to, a // b = int(a / b)
+            return canon(e.left, leaf, transparent) / canon(e.right, leaf, transparent)
         opname = type(e.op).__name__
         return RF(_sym(f"{opname}({text(e.left, leaf)},{text(e.right, leaf)})"))
     if isinstance(e, ast.Call):
